@@ -279,3 +279,65 @@ for _pid, _cfg in PROPS.items():
         _cfg.setdefault("technique", "contract-based deductive verification where contracts exist (see evidence), otherwise bounded run-time contract check of the real code (labelled bounded)")
         _cfg.setdefault("level_text", _BOUNDED_TEXT)
         _cfg.setdefault("level_note", "Oracle: executable specification written from the property statement / cited formulas (specs/); tolerances stated in the bcc module; float32 effects accepted within those tolerances.")
+
+# ---- level texts of the properties whose critical path is partly deductive, partly bounded ------------------------------
+_T_C = ("contract-based deductive verification: symbolic execution of the real C/C++ kernel text (clang JSON AST) against sidecar contracts with "
+        "inductive loop invariants, VCs to z3/cvc5 (sympy normal form for exact polynomial identities); bounded run-time contract check of the "
+        "compiled code as labelled stand-in for what the contracts do not reach")
+_T_PY = ("contract-based deductive verification: symbolic execution of the real Python source against sidecar contracts (callee contracts at call "
+         "sites, NumPy itself on object arrays of symbolic scalars where arrays are involved), VCs to z3/cvc5; bounded run-time contract check as labelled stand-in")
+_N = ("Trusted: the VC generator and its models (listed in evidence), reals for floats, C int without overflow, fvec4 lane semantics; Cython wrappers and "
+      "everything named bounded-only in the text. Level 'other' because part of the property's critical path is only bounded-checked.")
+_TEXTS = {
+    "C02": (_T_PY, "Deductive: read(n_frames, stride) of the HDF5 and NetCDF file classes for symbolic N, position, n and stride (frames delivered, count, new "
+            "position); the iterload generator by a chunk-loop invariant (start frame skip+k*chunk*stride, sizes, stride, atoms, termination only when nothing is "
+            "left; chunk=0 and PDB delegation stated semantically); load_pdb(frame=i) time. Bounded only: the Cython/C readers (xtc, trr, dcd, dtr, binpos), the text "
+            "readers, load() over file lists."),
+    "C04": (_T_PY, "Deductive: the real Topology/Chain/Residue/Atom/Bond code on a fixed shape (2 chains, 3 residues, 5 atoms, 4 typed bonds) with symbolic "
+            "resSeq/serial: copy/__copy__/__deepcopy__, subset for all 31 subsets, join, in-place edits, ==/hash: abstract view equality, well-formedness, bond "
+            "endpoints are own atoms, independence of the copy. Complete in the values, bounded in the shape. Bounded only: other shapes, carriers (HDF5, PDB, DataFrame, pickle)."),
+    "C05": (_T_C, "Deductive: dist, dist_mic, dist_mic_triclinic for ALL frames and pairs (loop invariants): lattice congruence with explicit integer witnesses, "
+            "wrap bounds, box reduction keeps the lattice, all 27 images examined, result is one of them and not longer than any, d^2=|out|^2, frame conditions; lemma L1; "
+            "compute_distances_core dispatch (minimum-image path iff periodic and cell; orthorhombic kernel iff every frame orthogonal; box transposed once). "
+            "Bounded only: float32 effects, the _t (time-pair) kernels, the NumPy reference path, displacement wrappers."),
+    "C06": (_T_C, "Deductive: msdFromMandG on a symbolic inner-product matrix: the code's C_2, C_1, C_0 are the coefficients of det(K - xI) for the Horn/Theobald key "
+            "matrix K(M) (exact polynomial identities on the code's own terms), Horn's identity q^T K q = <R(q), M>, msd = max(0,(G_x+G_y-2 lambda)/N), the code's quaternion is "
+            "the cofactor vector of K - lambda I (an eigenvector), rot = R(q/|q|) with R^T R = I and det R = +1; Trajectory.superpose / center_coordinates keep the trace "
+            "cache consistent. ASSUMED: DirectSolve returns the largest root of the quartic. Bounded only: the SSE accumulation kernels (M, G, centring), _rmsd.pyx, lprmsd, "
+            "float32 effects, the 1e-11 identity threshold (known finding)."),
+    "C07": (_T_C, "Deductive: the six angle/dihedral kernels for all frames and items, modularly over the distance kernels' contracts (atom pairs, formula "
+            "acos(clip(u.v/|u||v|)), atan2 form of the dihedral with its sign, output index, matching distance variant); reversal/mirror lemmas (sympy); torsion atom tables; "
+            "_atom_sequence on 4 topologies; dispatch of compute_angles/compute_dihedrals (orthogonal flag over all frames). Bounded only: float32, chi/phi/psi on real proteins."),
+    "C08": (_T_C, "Deductive: asa_frame gives every selected atom an area that is a function of that frame's coordinates only, for ARBITRARY contents of the re-used scratch "
+            "buffers on entry (covers every thread schedule); sasa hands every frame its own coordinates and accumulates into that frame's row only; the DSSP driver computes "
+            "hydrogen bonds, sheets, helices and bends of frame i from frame i's coordinates and a fresh table. #pragma omp itself is not interpreted. Bounded only: every "
+            "other per-frame analysis (rmsd, drid, neighbours, contacts, ...) and bit-identity across OMP_NUM_THREADS."),
+    "C09": (_T_PY, "Deductive: only corollaries of other contracts: hydrogen-bond criteria use minimum-image distances for all three sides with the caller's periodic "
+            "flag; the distance/angle kernels depend on coordinates through differences (C05/C07 contracts). Bounded only: rigid-motion and lattice-shift invariance of every "
+            "observable in float32, neighbour-list voxel hashing (known findings)."),
+    "C10": (_T_C, "Deductive: the brute-force kernel _compute_neighbors on 2x1 / 1x2 query/haystack lists with symbolic indices, coordinates, box and cutoff: per-pair "
+            "lattice congruence and wrap bounds, result = haystack atoms with some query atom (not itself) within the cutoff, in order. Bounded only: longer lists, "
+            "compute_neighborlist (voxel search: known findings), float32."),
+    "C11": (_T_PY, "Deductive: the Python side of make_molecules_whole / image_molecules on the real Trajectory and Topology classes: the bond table handed to the kernel is "
+            "the CURRENT topology's bonds (also after in-place edits of the same Topology), the kernel works on the result's coordinates, cells/times untouched, inplace=False "
+            "leaves the original untouched. Bounded only: the Cython kernels make_whole / image_frame / wrap_mols (image_molecules.pxi cannot be rebuilt or interpreted here)."),
+    "C12": (_T_PY, "Deductive: Topology.select is a pure observer of the current topology (no state added; same answer after edit histories); select_expression embeds "
+            "the parser's source. Bounded only: the grammar, precedence and keyword tables (grammar enumeration against a reference evaluator)."),
+    "C13": (_T_C, "Deductive: asa_frame for symbolic atom and point counts (five loop invariants): the neighbour list is exactly the overlapping other atoms; a sphere point "
+            "is rejected iff strictly inside a listed atom, accepted iff inside no other atom (prefilter soundness lemma); areas[i] = 4 pi R_i^2/P * #accessible points, "
+            "independent of the old buffer; unselected atoms untouched; sasa: group value = sum over the selected atoms of the group, per frame row; golden-spiral points are "
+            "unit vectors at heights (2i+1)/n-1. Bounded only: shrake_rupley's Python bookkeeping (radii table, -1 for unselected), float32 boundary cases, static state across calls."),
+    "C14": (_T_C, "Deductive: store_energies keeps the best two (energy, acceptor) pairs per donor (all call sequences by induction); ks_donor_acceptor formula and clamp; "
+            "virtual hydrogen placement; kabsch_sander evaluates exactly the complete pairs within the CA prefilter on each frame's own coordinates and offers (ri->rj) / (rj->ri) "
+            "iff E < -0.5, not proline, rj != ri+1; baker_hubbard and wernet_nilsson return exactly the triplets meeting the documented criteria (strictness, degrees/radians, "
+            "frequency over frames, periodic flag on all three sides) on fixed small shapes with symbolic distances. Bounded only: _get_bond_triplets on real topologies, float32, "
+            "chain-boundary hydrogens (known findings)."),
+    "C15": (_T_C, "Deductive: the DSSP driver (per-frame call order and arguments, skip mask, code->character table, one character per residue per frame), the bridge patterns "
+            "of _residue_test_bridge (Kabsch & Sander), calculate_bends (70 degree kappa rule). Bounded only: ladder building and bulge merging (calculate_beta_sheets), helix "
+            "flags and priorities (calculate_alpha_helices), compute_dssp's Python overlay ('NA', simplified codes) -- compared with an independent implementation of the DSSP rules."),
+    "C16": (_T_PY, "Deductive: compute_contacts for all schemes x explicit/'all' pairs x min/soft-min on a topology with unequal residue sizes and symbolic distances (value "
+            "= min or soft-min over exactly the designated atom pairs of the returned label); compute_rdf shell normalisation and histogram convention; centre of "
+            "geometry/mass, gyration tensor, Rg as closed forms on symbolic coordinates. Bounded only: DRID, nematic order, dipoles, J-couplings, principal moments, density, float32."),
+}
+for _pid, (_t, _lt) in _TEXTS.items():
+    PROPS[_pid].update(technique=_t, level_text=_lt, level_note=_N, explanation=_lt.split("Bounded only:")[0].strip())
